@@ -379,6 +379,30 @@ def prebuilt_special(part, base, version, tkey, case):
                     part.outcome("refused")
                     continue
                 check_result(part, obj, version, c, "prebuilt-definition/%s-as-%s" % (dl.split("-")[0], dt_))
+    # REFERENCES given as ready-made library OBJECTS (the reference is the instance's id): the id must be valid for the REFERRING object's spec version like an id given as text
+    if base.get("type") in ("indicator", "relationship", "sighting", "note", "report") and case.get("base") in (None, "min"):
+        other = stix2.v21 if version == "2.0" else stix2.v20
+        donors = {"other-version-identity-uuid5": lambda: stix2.v21.Identity(id="identity--e1d2f3a4-5b6c-51ea-8d7e-0123456789ab", name="n", identity_class="individual"),
+                  "other-version-identity-uuid1": lambda: stix2.v21.Identity(id="identity--e1d2f3a4-5b6c-11ea-8d7e-0123456789ab", name="n", identity_class="individual"),
+                  "nil-uuid-identity-built-with-interoperability": lambda: mod.Identity(id="identity--00000000-0000-0000-0000-000000000000", name="n", identity_class="individual", interoperability=True),
+                  "same-version-identity": lambda: mod.Identity(name="n", identity_class="individual")}
+        slots = [k for k in ("created_by_ref", "source_ref", "target_ref", "sighting_of_ref", "where_sighted_refs", "object_refs") if k in model.spec(version).classes[tkey]["properties"]]
+        for slot in slots:
+            for dl, make in donors.items():
+                part.evaluations += 1
+                part.transitions += 1
+                try:
+                    donor = make()
+                except Exception:
+                    continue
+                j = dict({k: v for k, v in base.items()}, **{slot: [donor] if slot.endswith("_refs") else donor})
+                c = dict(case, corruption="%s=%s" % (slot, dl), form="constructor(reference given as an object)")
+                try:
+                    obj = getattr(mod, type(stix2.parse(copy.deepcopy(base), allow_custom=False)).__name__)(**{k: v for k, v in j.items() if k != "type"})
+                except Exception:
+                    part.outcome("refused")
+                    continue
+                check_result(part, obj, version, c, "reference-given-as-object/%s" % dl)
     if version == "2.0" and base.get("type") == "observed-data" and isinstance(base.get("objects"), dict) and len(base["objects"]) > 1:
         try:
             od = stix2.parse(copy.deepcopy(base), allow_custom=False)
